@@ -57,8 +57,12 @@ class Slacks:
         """for all 0 <= i < upto: P(i)   (proved by induction in unit C04.slacks.lemma)"""
         p = self.u.path
         p.add_ufact(UFact(1, lambda i: self.lemma_parts(i)[0][1], [(0, upto)], "lemma:P1"))
+        # the second variable ranges over row indices (P2, P3) resp. slack indices (P4): restricting the range of
+        # a universally quantified fact is sound and keeps the ground instances to the terms of that kind
+        kk = self.rank(self.m)
         for k in (1, 2, 3):
-            p.add_ufact(UFact(2, (lambda k: lambda i, a: self.lemma_parts(i)[k][1](a))(k), [(0, upto), (None, None)], f"lemma:P{k + 1}"))
+            rng = (0, upto) if k < 3 else (0, kk + 1)
+            p.add_ufact(UFact(2, (lambda k: lambda i, a: self.lemma_parts(i)[k][1](a))(k), [(0, upto), rng], f"lemma:P{k + 1}"))
 
 
 @unit("C04.slacks.lemma", ["C04", "C01"], [CP + "create_slacks"], config={"max_paths": 10})
@@ -192,21 +196,21 @@ def create_slacks_general(u):
 # the other methods, for any instance satisfying the class invariant
 
 
-def mk_cp_general(u, fmt="coo"):
-    inner = mk_problem(u, name="inner")
-    n, m = inner.fields["__n__"], inner.fields["num_cons"]
-    cl, cu = V(inner.fields["cons_lb"]), V(inner.fields["cons_ub"])
-    up = UserProblem(u, inner, fmt=fmt)
-    S = Slacks(u, cl, cu, m)
+def slack_contract(u):
+    """installs the contract of create_slacks (proved in C04.ConstrainedProblem.create_slacks[any m] + the lemma
+    unit) for whatever bounds the REAL __init__ passes; the ghost functions are created at the call and returned in
+    the holder: S, m, k, cl, cu"""
+    h = {}
     p = u.path
-    p.index_term(m, m)
-    k = S.rank(m)
-    # anyoff and its lemma (proved in the lemma unit below): no flag => every equality row has rhs 0
-    W = p.bool("anyoff_m")
-    offsets_kept = u.path.choose("cons_offsets kept (some equality row has a non-zero rhs)")
 
     def create_slacks(it, self_, cons_lb, cons_ub):
-        """contract proved in unit C04.ConstrainedProblem.create_slacks[any m] (+ lemma unit)"""
+        cl, cu = V(cons_lb), V(cons_ub)
+        m = cl.n
+        S = Slacks(u, cl, cu, m)
+        p.index_term(m, m)
+        k = S.rank(m)
+        offsets_kept = p.choose("cons_offsets kept (some equality row has a non-zero rhs)")
+
         def pos_at(t):
             t = t if not isinstance(t, int) else z3.IntVal(t)
             p.index_term(t, k)  # the lemma (0 <= pos(t) < m, pos(t) is an inequality row) is instantiated at every read
@@ -221,12 +225,24 @@ def mk_cp_general(u, fmt="coo"):
             p.add_ufact(UFact(1, lambda q: ov.f(q) == z3.If(cl.f(q) == cu.f(q), -cl.f(q), 0), [(0, m)], "cons_offsets==spec"))
             self_.fields["cons_offsets"] = Arr.new(ov)
         else:
-            p.add_ufact(UFact(1, lambda q: z3.Implies(cl.f(q) == cu.f(q), cl.f(q) == 0), [(0, m)], "no offsets: equality rhs are 0 (lemma anyoff)"))
+            p.add_ufact(UFact(1, lambda q: z3.Implies(cl.f(q) == cu.f(q), cl.f(q) == 0), [(0, m)], "no offsets: equality rhs are 0 (post-condition of create_slacks)"))
             self_.fields["cons_offsets"] = None
+        h.update(S=S, m=m, k=k, cl=cl, cu=cu)
 
     u.it.abstract[CP + "create_slacks"] = create_slacks
-    cp = u.construct("pygradflow.cons_problem.ConstrainedProblem", inner)
-    return inner, up, cp, S, n, m, k, cl, cu
+    return h
+
+
+def mk_cp_general(u, fmt="coo", build=None, inner=None):
+    """the inner problem (any n, any m), the slack ghost functions, and a ConstrainedProblem built by the REAL
+    __init__ around the proved contract of create_slacks; `build(inner)` may construct it through an outer layer
+    (Transformation) and return the ConstrainedProblem object"""
+    inner = inner or mk_problem(u, name="inner")
+    n, m = inner.fields["__n__"], inner.fields["num_cons"]
+    up = UserProblem(u, inner, fmt=fmt)
+    h = slack_contract(u)
+    cp = build(inner) if build is not None else u.construct("pygradflow.cons_problem.ConstrainedProblem", inner)
+    return inner, up, cp, h["S"], n, m, h["k"], h["cl"], h["cu"]
 
 
 @unit("C04.ConstrainedProblem.init[any m]", ["C04", "C01", "C05", "C11"], [CP + "__init__"], config={"max_paths": 50})
@@ -379,4 +395,123 @@ def sol_general(u):
     log.check()
     if xt is not x0:
         u.canary(QAll(k, lambda t: xtv.f(n + t) == up.ret0["cons"].f(S.pos(t))), "starting_slacks_unclipped")
+    u.cover("end")
+
+
+# ----------------------------------------------------------------------------------------------------
+# Transformation (scale -> slack stack): start iterate and solution mapping for ANY number of rows
+
+
+class SlackStartLoop(TripletLoop):
+    """for i, pos in enumerate(self.slack_positions): slack_vals[i] = clip(orig_cons_vals[pos], cl[pos], cu[pos])
+    the spec reads the arrays of the frame at loop entry (whatever inner problem the wrapper sits on)"""
+
+    def __init__(self, u, h):
+        super().__init__(u, "slack_vals", None)
+        self.h = h
+
+    def sequence(self, it, frame, iterable):
+        c0 = frame.locals["orig_cons_vals"].vec()
+        prob = frame.locals["problem"]
+        cl, cu = prob.fields["cons_lb"].vec(), prob.fields["cons_ub"].vec()
+        S, m, p = self.h["S"], self.h["m"], it.path
+        clip = lambda t, lo, hi: ops.zmin(ops.zmax(t, lo), hi)
+
+        def spec(t):
+            pt = S.pos(t)
+            p.index_term(pt, m)
+            return clip(c0.f(pt), cl.f(pt), cu.f(pt))
+
+        self.spec = spec
+        return super().sequence(it, frame, iterable)
+
+    def check_body(self, frame, site):
+        return None
+
+
+TR = "pygradflow.transform.Transformation."
+SCL = "pygradflow.scale."
+
+
+@unit("C04.Transformation.sol[any m]", ["C04", "C01", "C05", "C11", "C12"], [TR + "__init__", TR + "transform_sol", TR + "restore_sol", TR + "scaled_problem", TR + "trans_problem", TR + "create_transformed_iterate", SCL + "create_scaling", CP + "transform_sol", CP + "restore_sol", CP + "__init__"], config={"max_paths": 400})
+def transformation_sol_any_m(u):
+    from pyvc.npmodel import pow2_at
+
+    from .c04_transform import mk_scaling
+    from .common import mk_params
+
+    log = StoreLog(u)
+    p = u.path
+    scaled = p.choose("custom scaling")
+    user = mk_problem(u, name="user")
+    n, m = user.fields["__n__"], user.fields["num_cons"]
+    up = UserProblem(u, user)
+    params = mk_params(u)
+    sc = None
+    if scaled:
+        sc, vw_a, cw_a, ow = mk_scaling(u, n, m)
+        params.fields["scaling"] = sc
+        params.fields["scaling_type"] = u.enum("pygradflow.params.ScalingType", "Custom")
+        vw, cw = V(vw_a), V(cw_a)
+    else:
+        ow = 0
+    P = lambda e: pow2_at(u.it, e)
+    W = (lambda j, s=1: P(s * vw.f(j))) if sc else (lambda j, s=1: 1)
+    YW = (lambda i, s=1: P(s * (cw.f(i) - ow))) if sc else (lambda i, s=1: 1)
+    CW = (lambda i: P(cw.f(i))) if sc else (lambda i: 1)
+    u.it.abstract["pygradflow.eval.create_evaluator"] = lambda it, problem, params_: Opaque("evaluator")
+    h = slack_contract(u)
+    u.it.loop_specs[CP + "transform_sol/loop#0"] = SlackStartLoop(u, h)
+    tr = u.construct("pygradflow.transform.Transformation", user, params)
+    tp = tr.fields["trans_problem"]
+    S, k = h["S"], h["k"]
+    N = n + k
+    ucl, ucu = V(user.fields["cons_lb"]), V(user.fields["cons_ub"])
+    ulb, uub = V(user.fields["var_lb"]), V(user.fields["var_ub"])
+    mode = p.choose_n(2, "x0 given / None")
+    if mode == 0:
+        x0 = u.vec("x0", n, region="USER")
+        p.add_ufact(UFact(1, lambda j: z3.And(ulb.f(j) <= V(x0).f(j), V(x0).f(j) <= uub.f(j)), [(0, n)], "requires:in_box(x0)"))
+        y0 = u.vec("y0", m, region="USER")
+    else:
+        x0, y0 = None, None
+    itx = u.method(tr, "create_transformed_iterate", x0, y0)
+    xi, yi = V(itx.fields["x"]), V(itx.fields["y"])
+    tlb, tub = V(tp.fields["var_lb"]), V(tp.fields["var_ub"])
+    u.ensure(itx.fields["problem"] is tp, "start_iterate_belongs_to_the_transformed_problem")
+    u.ensure(QAll(n, lambda j: z3.And(tlb.f(j) <= xi.f(j), xi.f(j) <= tub.f(j))), "start_iterate_in_box(variables)", props=["C05"])
+    u.ensure(QAll(k, lambda t: z3.And(tlb.f(n + t) <= xi.f(n + t), xi.f(n + t) <= tub.f(n + t))), "start_iterate_in_box(slacks)", props=["C05"])
+    if mode == 0:
+        u.ensure(QAll(n, lambda j: xi.f(j) == V(x0).f(j) * W(j)), "start_x[:n]==x0*P(vw)")
+        u.ensure(QAll(m, lambda i: yi.f(i) == V(y0).f(i) * YW(i, -1)), "start_y==y0*P(ow-cw)")
+    else:
+        u.ensure(QAll(n, lambda j: xi.f(j) * W(j, -1) == ops.zmin(ops.zmax(z3.RealVal(0), ulb.f(j)), uub.f(j))), "start_x[:n]==scaled_clip(0,lb,ub)")
+    # starting slacks: the user's constraint value, scaled and clipped to the (scaled) row bounds
+    if "cons" in up.ret0:
+        c_u = up.ret0["cons"]
+        clip = lambda t, lo, hi: ops.zmin(ops.zmax(t, lo), hi)
+
+        def slack_ok(t):
+            i = S.pos(t)
+            p.index_term(i, m)
+            return xi.f(n + t) == clip(c_u.f(i) * CW(i), ucl.f(i) * CW(i), ucu.f(i) * CW(i))
+
+        u.ensure(QAll(k, slack_ok), "start_slacks==clip(c(x0)*P(cw),cl*P(cw),cu*P(cw))[pos]")
+    else:
+        u.ensure(k == 0, "user_constraints_not_evaluated_only_without_slacks")
+    for call in up.calls:
+        av = V(call[1])
+        u.ensure(QAll(n, lambda j: z3.And(ulb.f(j) <= av.f(j), av.f(j) <= uub.f(j))), f"user_{call[0]}_evaluated_inside_the_user's_box", props=["C05"])
+    d = u.vec("d_int", N)
+    xr, yr, dr = u.method(tr, "restore_sol", itx.fields["x"], itx.fields["y"], d)
+    if mode == 0:
+        u.ensure(QAll(n, lambda j: V(xr).f(j) == V(x0).f(j)), "restore_sol(start)==x0(exact_round_trip)")
+        u.ensure(QAll(m, lambda i: V(yr).f(i) == V(y0).f(i)), "restore_sol(start).y==y0")
+    u.ensure(QAll(n, lambda j: V(xr).f(j) == xi.f(j) * W(j, -1)), "restored_x==x_int[:n]*P(-vw)")
+    u.ensure(QAll(m, lambda i: V(yr).f(i) == yi.f(i) * YW(i)), "restored_y==y_int*P(cw-ow)")
+    u.ensure(QAll(n, lambda j: V(dr).f(j) == V(d).f(j) * (P(vw.f(j) - ow) if sc else 1)), "restored_d==d_int[:n]*P(vw-ow)")
+    same_len = lambda a: (a == n) if not isinstance(a, int) else False
+    u.ensure(z3.And(same_len(V(xr).n), same_len(V(dr).n)), "restored_vectors_have_the_user's_length_n")
+    u.ensure(QAll(n, lambda j: z3.And(ulb.f(j) <= V(xr).f(j), V(xr).f(j) <= uub.f(j))), "restored_x_inside_user_box", props=["C05", "C01"])
+    log.check()
     u.cover("end")
